@@ -410,9 +410,16 @@ func c16RunBase(r *verifmc.Run, g verifc16.Grp, baseID, dst string, k verifc16.N
 		r.Eval(1)
 		ok, pan, what := c16Verify(a.p, a.st, pr)
 		cls := a.name
-		if i := strings.IndexAny(cls, "0123456789"); i >= 0 && (strings.HasPrefix(cls, "B") || strings.HasPrefix(cls, "kB") || strings.HasPrefix(cls, "pair")) {
+		if strings.HasPrefix(cls, "B") || strings.HasPrefix(cls, "kB") || strings.HasPrefix(cls, "pair") {
+			// position-independent class: first index -> i (swaps) or j, second index -> j
+			idx := 0
+			swap := strings.Contains(cls, "<->")
 			cls = strings.Map(func(c rune) rune {
 				if c >= '0' && c <= '9' {
+					idx++
+					if swap && idx == 1 {
+						return 'i'
+					}
 					return 'j'
 				}
 				return c
